@@ -15,7 +15,7 @@ demo=$d/demo_test.go.txt; [ -f $demo ] || demo=$(ls $d/*_test.go* 2>/dev/null | 
 cp $demo /tmp/.autoeval_demo_$$_test.go
 mkdir -p $root/results
 log=$root/results/$prop-$m.log
-cd /verif && ./seedeval.sh $d/patch.diff $prop quick /tmp/.autoeval_demo_$$_test.go $DEMO_DST > $log 2>&1
+cd ${VERIF_ROOT:-/verif} && ./seedeval.sh $d/patch.diff $prop quick /tmp/.autoeval_demo_$$_test.go $DEMO_DST > $log 2>&1
 rm -f /tmp/.autoeval_demo_$$_test.go
 applies=ok; grep -q PATCH-DOES-NOT-APPLY $log && applies=NO
 tests=$(awk '/existing tests WITH patch/{f=1;next} /^== /{f=0} f' $log | grep -c "^FAIL")
